@@ -410,9 +410,22 @@ func apply(f string, a []Res, mode int) Res {
 		return Res{V: -a[0].V, E: a[0].E}
 	case "mul":
 		v := a[0].V * a[1].V
+		if math.IsInf(v, 0) && !math.IsInf(a[0].V, 0) && !math.IsInf(a[1].V, 0) {
+			// overflow of a product of finite factors. With factors known to 0.1% the true product is beyond 1e307 in
+			// magnitude: that much is recorded (E = 0 on an infinite V) for a quotient that divides by it; anything else
+			// that consumes it ends up with a non-finite bound, which leaves the element undecided.
+			if a[0].E <= 1e-3*abs(a[0].V) && a[1].E <= 1e-3*abs(a[1].V) {
+				return Res{V: v}
+			}
+			return Res{V: v, E: math.Inf(1), Unstable: true}
+		}
 		return Res{V: v, E: abs(a[0].V)*a[1].E + abs(a[1].V)*a[0].E + a[0].E*a[1].E + u*abs(v)}
 	case "div":
 		v := a[0].V / a[1].V
+		if math.IsInf(a[1].V, 0) && a[1].E == 0 && !math.IsInf(a[0].V, 0) && !math.IsNaN(a[0].V) && !math.IsInf(a[0].E, 0) && !math.IsNaN(a[0].E) {
+			// divisor = an overflowed product (true magnitude beyond 1e307, see "mul"): the quotient is that close to 0
+			return Res{V: v, E: (abs(a[0].V) + a[0].E) / 1e307}
+		}
 		den := abs(a[1].V) - a[1].E
 		if den <= 0 {
 			return Res{V: v, E: math.Inf(1), Unstable: true}
